@@ -1,1 +1,14 @@
 import SwcVerif.Props.C09
+#print axioms C09.mkTree_wf
+#print axioms C09.step_wf
+#print axioms C09.run_wf
+#print axioms C09.at_spec
+#print axioms C09.view_reads_owner
+#print axioms C09.reads_pure
+#print axioms C09.node_write_through
+#print axioms C09.write_then_view_read
+#print axioms C09.copy_fresh
+#print axioms C09.detach_fresh
+#print axioms C09.write_frame
+#print axioms C09.tree_segments
+#print axioms C09.branch_segments
